@@ -9,7 +9,6 @@ package stress
 import (
 	"context"
 	"database/sql/driver"
-	"sync"
 	"errors"
 	"fmt"
 	"io"
@@ -17,6 +16,7 @@ import (
 	"regexp"
 	"runtime"
 	"strings"
+	"sync"
 	"sync/atomic"
 )
 
